@@ -37,11 +37,11 @@ ASSUMPTIONS = [
 ]
 BOUNDS = {
     "quick": "atoms: 6 NUMBER forms, variables a and b.c, element access q1->k1; all unary/binary programs over atoms (5 operators incl. ^ and **), one- and two-argument calls, "
-             "and depth-3 programs from a generated family (~1700 programs), spaced and unspaced text, item and attribute element modes; fully parenthesised twins",
+             "and depth-3 programs from a generated family (~1700 programs), spaced and unspaced text, item and attribute element modes; fully parenthesised twins; sequences of two programs on the same evaluators (166 pairs: one shape with two literals, incl. the hash-colliding -1 / -2, and neighbouring small programs)",
     "thorough": "depth-3 family over all operator pairs, both builds",
 }
 OUTSIDE = "assignment statements NAME = expr; programs deeper than 3; real libm functions (uninterpreted here)"
-REQUIRED_CLASSES = ["programs", "after_change", "zero_division", "python_mirror", "attr_mode", "bound_variable", "cross_spelling"]
+REQUIRED_CLASSES = ["programs", "after_change", "zero_division", "python_mirror", "attr_mode", "bound_variable", "cross_spelling", "sequence_on_same_evaluators"]
 PROFILE_CASES = 3
 TASKS_PER_CHILD = 20
 
@@ -168,6 +168,29 @@ def programs(tier):
     return out
 
 
+def twin_pairs():
+    """(first, second): programs of one shape that differ in one literal - among them literals whose values
+    collide in CPython's hash (-1 / -2) - and neighbouring programs of the family"""
+    lits = [("1", "2"), ("2", "1"), ("1.0", "2.0"), ("1e0", "2"), ("3", "2.5e-1")]
+    a, bc, el = ("var", "a"), ("var", "b.c"), ("elem",)
+    out = []
+
+    def neg(x):
+        return ("un", "-", ("num", x))
+    for l1, l2 in lits:
+        for mk in (lambda L: ("bin", "^", a, L), lambda L: ("bin", "**", bc, L), lambda L: ("bin", "*", L, a), lambda L: ("bin", "+", el, L),
+                   lambda L: ("bin", "-", a, L), lambda L: ("bin", "/", a, L), lambda L: ("call", "f2", [a, L]), lambda L: ("call", "f1", [L]),
+                   lambda L: ("bin", "^", ("par", ("bin", "+", a, bc)), L), lambda L: ("bin", "*", ("bin", "+", a, L), bc), lambda L: L):
+            out.append((mk(neg(l1)), mk(neg(l2))))
+            out.append((mk(("num", l1)), mk(("num", l2))))
+    sm = [a, bc, el, ("num", "2"), ("un", "-", a), ("bin", "+", a, bc), ("bin", "*", a, ("num", "2")), ("call", "f1", [a])]
+    for x in sm:
+        for y in sm:
+            if x != y:
+                out.append((x, y))
+    return out
+
+
 class FMod:
     """uninterpreted function module"""
 
@@ -267,7 +290,26 @@ def run_case(ex, case):
     V["b.c"] = ex.real("bc")
     sp = case["sp"]
     # one program per path (forks on zero divisors must not multiply across programs)
-    pick = ex.choose(len(progs))
+    pick = 0 if case.get("seq") else ex.choose(len(progs))
+    if case.get("seq"):
+        # program sequences on the SAME evaluators: a sibling program (same shape, another literal; or the
+        # neighbour in the family) is parsed, built and evaluated first, then the program under test is checked
+        pairs = twin_pairs()[case["lo"]:case["hi"]]
+        pick = ex.choose(len(pairs))
+        first, second = pairs[pick]
+        note(ex, "sequence_on_same_evaluators")
+        for tree in (first, paren(first)):
+            try:
+                d0 = madexpr(text(tree, sp))
+                madeval(text(tree, sp))
+                if hasattr(d0, "_get_value"):
+                    d0._get_value()
+            except (Abort, Inconclusive):
+                raise
+            except ZeroDivisionError:
+                pass
+        progs = [second]
+        pick = 0
     for i, t in list(enumerate(progs))[pick:pick + 1]:
         for variant, tree in (("plain", t), ("paren", paren(t))):
             s = text(tree, sp)
@@ -356,4 +398,7 @@ def cases(tier):
             out.append({"build": b, "tier": tier, "lo": lo, "hi": min(n, lo + chunk), "mode": "item", "sp": "", "change_every": 1, "cross": True})
         for lo in range(2 * chunk, n, chunk * 6):
             out.append({"build": b, "tier": tier, "lo": lo, "hi": min(n, lo + chunk), "mode": "attr", "sp": "", "change_every": 1, "cross": True})
+        npairs = len(twin_pairs())
+        for k, lo in enumerate(range(0, npairs, 8)):
+            out.append({"build": b, "tier": tier, "lo": lo, "hi": min(npairs, lo + 8), "mode": "attr" if k % 4 == 3 else "item", "sp": "", "change_every": 1, "seq": True})
     return out
